@@ -84,6 +84,10 @@ def generate(rng, tier, prop):
         kn.update({"nblocks": rng.choice([1, 2, 3, 4, 6]) if rng.random() > (0.02 if tier == "quick" else 0.08) else rng.choice([30, 80, 200]), "collide": rng.random() < 0.4, "names": rng.random() < 0.7,
                    "maxfields": rng.choice([2, 5, 8])})
         docs.append({"text": docgen.make_doc(rng, kn)["text"]})
+        if rng.random() < 0.12:
+            # size knob: a field key (and entry key) far longer than any alignment column a format would pick
+            n = rng.choice([40, 62, 64, 70, 130, 600])
+            docs[-1]["text"] += "\n@misc{long" + "k" * n + ",\n " + "f" * n + " = {v},\n b = 1\n}\n"
     cfg = {"docs": docs, "formats": [draw_format(rng) for _ in range(2)] + [dict(draw_format(rng), value_column="auto")]}
     ops = []
     for d in range(ndocs):
@@ -108,6 +112,10 @@ def generate(rng, tier, prop):
                         "via": rng.choice(["string", "string", "path", "fileobj"])})
         elif r < p_write + 0.05:
             ops.append({"op": "parse", "doc": rng.randrange(ndocs), "stack": rng.choice(STACKS)})
+        elif r < p_write + 0.09:
+            # the caller edits a private deep copy while writing it (in-place middleware given as prepend_middleware /
+            # unparse_stack): nothing of that call may stay behind in the entry points for later writes of other libraries
+            ops.append({"op": "write_private", "lib": rng.randrange(12), "mw": rng.randrange(3), "arg": rng.choice(["prepend", "prepend", "stack"])})
         else:
             m = rng.choice(focus) if rng.random() < 0.75 else rng.randrange(len(CATALOGUE))
             # bias: feed an instance its own earlier output
@@ -268,6 +276,28 @@ def execute(run, props):
                 res.nontrivial = True
                 res.states.add(("write", classes(lib), outcome))
                 res.event(step, label, outcome, "")
+                continue
+
+            if kind == "write_private":
+                import copy
+                lib = copy.deepcopy(libs[op["lib"] % len(libs)].obj)
+                mw = [lambda: mws.NormalizeFieldKeys(allow_inplace_modification=True),
+                      lambda: mws.SortFieldsAlphabeticallyMiddleware(allow_inplace_modification=True),
+                      lambda: mws.MonthIntMiddleware(allow_inplace_modification=True)][op["mw"] % 3]()
+                outcome = "ok"
+                try:
+                    if op["arg"] == "prepend":
+                        EP.write_string(lib, prepend_middleware=[mw])
+                    else:
+                        EP.write_string(lib, unparse_stack=[mw])
+                except Exception as e:  # noqa
+                    outcome = "raised:" + type(e).__name__
+                res.sim_steps += 1
+                res.nops += 1
+                res.probes["write_of_private_copy_with_inplace_middleware"] += 1
+                if not check_arena(step, "write_string(private copy, in-place middleware)"):
+                    return res
+                res.event(step, "write_private", outcome, op["arg"])
                 continue
 
             if kind == "transform":
